@@ -2,9 +2,9 @@ package main
 
 import (
 	"fmt"
-	"os"
 	"go/token"
 	"go/types"
+	"os"
 	"sort"
 	"strings"
 
@@ -27,7 +27,7 @@ type envFlow struct {
 	m     *vmModel
 	fn    *ssa.Function
 	base  ssa.Value
-	entry map[ssa.Value]bool // loads of the env cell that see the value the function was entered with
+	entry map[ssa.Value]bool          // loads of the env cell that see the value the function was entered with
 	ctors map[*ssa.Function]token.Pos // env methods whose result the flow took for a fresh child of their receiver
 }
 
@@ -519,6 +519,14 @@ func c04Binding(p *Program, r *Report, m *vmModel) {
 						}
 					}
 					r.Check(okRecv, "C04.R3", inst, site, "binds in the current scope (or in an environment created here)", name+" on a scope other than the current one")
+					// a name that is an identifier *expression* (an assignment target, not a declared name) is bound here only as the
+					// fallback of the assignment dispatcher, after the nearest existing binding was looked for
+					if name == "DefineValue" && len(c.Call.Args) > 1 && fn != m.evalLet {
+						if x, _, ok := fieldLoad(c.Call.Args[1]); ok && m.nm.nodeKind(x.Type()) == "IdentExpr" {
+							r.Fail("C04.R3", inst+"|identifier target defined without looking for its binding", site,
+								"an identifier that is the target of an assignment is defined in the current scope without first updating the nearest existing binding (only the assignment dispatcher may do that, as the fallback of a failed SetValue): a write from a nested block or function creates a shadow and the outer variable keeps its old value")
+						}
+					}
 				}
 			}
 		}
